@@ -643,7 +643,21 @@ fn reassociate_applications<'a>(acc: Option<Term<'a>>, term: &Term<'a>) -> Term<
                         source_range: span(acc.source_range, argument.source_range),
                         group: true,
                         variant: Variant::Application(
-                            Rc::new(reassociate_applications(Some(acc), applicand)),
+                            Rc::new(if applicand.group {
+                                // The applicand was explicitly grouped, so don't reassociate
+                                // across its boundary.
+                                Term {
+                                    source_range: span(acc.source_range, applicand.source_range),
+                                    group: true,
+                                    variant: Variant::Application(
+                                        Rc::new(acc),
+                                        Rc::new(reassociate_applications(None, applicand)),
+                                    ),
+                                    errors: vec![],
+                                }
+                            } else {
+                                reassociate_applications(Some(acc), applicand)
+                            }),
                             Rc::new(reassociate_applications(None, argument)),
                         ),
                         errors: vec![],
@@ -915,7 +929,32 @@ fn reassociate_products_and_quotients<'a>(
                         source_range: span(acc.0.source_range, term2.source_range),
                         group: true,
                         variant: Variant::Product(
-                            Rc::new(reassociate_products_and_quotients(Some(acc), term1)),
+                            Rc::new(if term1.group {
+                                // The left subterm was explicitly grouped, so don't reassociate
+                                // across its boundary.
+                                let (acc, operator) = acc;
+                                Term {
+                                    source_range: span(acc.source_range, term1.source_range),
+                                    group: true,
+                                    variant: match operator {
+                                        ProductOrQuotient::Product => Variant::Product(
+                                            Rc::new(acc),
+                                            Rc::new(reassociate_products_and_quotients(
+                                                None, term1,
+                                            )),
+                                        ),
+                                        ProductOrQuotient::Quotient => Variant::Quotient(
+                                            Rc::new(acc),
+                                            Rc::new(reassociate_products_and_quotients(
+                                                None, term1,
+                                            )),
+                                        ),
+                                    },
+                                    errors: vec![],
+                                }
+                            } else {
+                                reassociate_products_and_quotients(Some(acc), term1)
+                            }),
                             Rc::new(reassociate_products_and_quotients(None, term2)),
                         ),
                         errors: vec![],
@@ -966,7 +1005,32 @@ fn reassociate_products_and_quotients<'a>(
                         source_range: span(acc.0.source_range, term2.source_range),
                         group: true,
                         variant: Variant::Quotient(
-                            Rc::new(reassociate_products_and_quotients(Some(acc), term1)),
+                            Rc::new(if term1.group {
+                                // The left subterm was explicitly grouped, so don't reassociate
+                                // across its boundary.
+                                let (acc, operator) = acc;
+                                Term {
+                                    source_range: span(acc.source_range, term1.source_range),
+                                    group: true,
+                                    variant: match operator {
+                                        ProductOrQuotient::Product => Variant::Product(
+                                            Rc::new(acc),
+                                            Rc::new(reassociate_products_and_quotients(
+                                                None, term1,
+                                            )),
+                                        ),
+                                        ProductOrQuotient::Quotient => Variant::Quotient(
+                                            Rc::new(acc),
+                                            Rc::new(reassociate_products_and_quotients(
+                                                None, term1,
+                                            )),
+                                        ),
+                                    },
+                                    errors: vec![],
+                                }
+                            } else {
+                                reassociate_products_and_quotients(Some(acc), term1)
+                            }),
                             Rc::new(reassociate_products_and_quotients(None, term2)),
                         ),
                         errors: vec![],
@@ -1177,7 +1241,28 @@ fn reassociate_sums_and_differences<'a>(
                         source_range: span(acc.0.source_range, term2.source_range),
                         group: true,
                         variant: Variant::Sum(
-                            Rc::new(reassociate_sums_and_differences(Some(acc), term1)),
+                            Rc::new(if term1.group {
+                                // The left subterm was explicitly grouped, so don't reassociate
+                                // across its boundary.
+                                let (acc, operator) = acc;
+                                Term {
+                                    source_range: span(acc.source_range, term1.source_range),
+                                    group: true,
+                                    variant: match operator {
+                                        SumOrDifference::Sum => Variant::Sum(
+                                            Rc::new(acc),
+                                            Rc::new(reassociate_sums_and_differences(None, term1)),
+                                        ),
+                                        SumOrDifference::Difference => Variant::Difference(
+                                            Rc::new(acc),
+                                            Rc::new(reassociate_sums_and_differences(None, term1)),
+                                        ),
+                                    },
+                                    errors: vec![],
+                                }
+                            } else {
+                                reassociate_sums_and_differences(Some(acc), term1)
+                            }),
                             Rc::new(reassociate_sums_and_differences(None, term2)),
                         ),
                         errors: vec![],
@@ -1228,7 +1313,28 @@ fn reassociate_sums_and_differences<'a>(
                         source_range: span(acc.0.source_range, term2.source_range),
                         group: true,
                         variant: Variant::Difference(
-                            Rc::new(reassociate_sums_and_differences(Some(acc), term1)),
+                            Rc::new(if term1.group {
+                                // The left subterm was explicitly grouped, so don't reassociate
+                                // across its boundary.
+                                let (acc, operator) = acc;
+                                Term {
+                                    source_range: span(acc.source_range, term1.source_range),
+                                    group: true,
+                                    variant: match operator {
+                                        SumOrDifference::Sum => Variant::Sum(
+                                            Rc::new(acc),
+                                            Rc::new(reassociate_sums_and_differences(None, term1)),
+                                        ),
+                                        SumOrDifference::Difference => Variant::Difference(
+                                            Rc::new(acc),
+                                            Rc::new(reassociate_sums_and_differences(None, term1)),
+                                        ),
+                                    },
+                                    errors: vec![],
+                                }
+                            } else {
+                                reassociate_sums_and_differences(Some(acc), term1)
+                            }),
                             Rc::new(reassociate_sums_and_differences(None, term2)),
                         ),
                         errors: vec![],
